@@ -16,6 +16,7 @@ fn adapter(name: &str, variant: &str) -> Option<Box<dyn Adapter>> {
         "retry" => Box::new(adapters::retry::RetryAd::new()),
         "reconnect" => Box::new(adapters::reconnect::ReconnectAd::new()),
         "timelimiter" => Box::new(adapters::timelimiter::TimeLimiterAd::new()),
+        "hedge" => Box::new(adapters::hedge::HedgeAd::new()),
         "circuitbreaker" => Box::new(adapters::circuitbreaker::CbAd::new(variant)),
         _ => return None,
     })
